@@ -76,6 +76,9 @@ pub enum Mutation {
     /// if the node is a serialised array ({"v":1,"dim":[..],"data":[..]}): give it another shape with
     /// the same number of elements
     Reshape(u16, u8),
+    /// if the node is a serialised spline ({"k":..,"t":[..],"c":..,"n":..}): make it degenerate in
+    /// several fields at once - order beyond the knot count, n = 0, no coefficients
+    DegenerateSpline(u16, u8),
 }
 
 #[derive(Clone, Debug, Serialize, Deserialize)]
@@ -219,6 +222,7 @@ fn mutation() -> impl Strategy<Value = Mutation> {
         3 => (any::<u16>(), 0u8..4).prop_map(|(i, k)| Mutation::Resize(i, k)),
         3 => (any::<u16>(), 0u8..6).prop_map(|(i, k)| Mutation::Perturb(i, k)),
         2 => (any::<u16>(), 0u8..5).prop_map(|(i, k)| Mutation::Reshape(i, k)),
+        1 => (any::<u16>(), 0u8..4).prop_map(|(i, k)| Mutation::DegenerateSpline(i, k)),
     ]
 }
 
@@ -565,6 +569,36 @@ fn mutate(text: &str, muts: &[Mutation]) -> (String, Vec<&'static str>) {
                     });
                     if done {
                         applied.push("perturb-number");
+                        break;
+                    }
+                }
+            }
+            Mutation::DegenerateSpline(i, kind) => {
+                let start = idx(*i);
+                for off in 0..total {
+                    let t = 1 + (start - 1 + off) % (total - 1);
+                    let mut done = false;
+                    let mut c2 = 0usize;
+                    with_parent_of(&mut v, t, &mut c2, &mut |p, k, ix| {
+                        if let Some(c) = get_child(p, &k, &ix) {
+                            let nt = c.get("t").and_then(|t| t.as_array()).map(|a| a.len());
+                            if let (Some(nt), true, true) = (nt, c.get("k").map_or(false, |x| x.is_u64()), c.get("n").is_some()) {
+                                c["k"] = Value::from((nt + 1 + (*kind as usize % 2) * 3) as u64);
+                                c["n"] = Value::from(0u64);
+                                match kind % 4 {
+                                    0 | 1 => c["c"] = Value::Null,
+                                    2 => { if let Some(o) = c.as_object_mut() { o.remove("c"); } }
+                                    _ => {
+                                        // an empty coefficient array in whatever shape the document uses
+                                        if let Some(d) = c.get_mut("c").and_then(|x| x.get_mut("data")) { *d = Value::Array(vec![]); c["c"]["dim"] = Value::from(vec![0u64]); } else { c["c"] = Value::Null; }
+                                    }
+                                }
+                                done = true;
+                            }
+                        }
+                    });
+                    if done {
+                        applied.push("degenerate-spline");
                         break;
                     }
                 }
@@ -1197,7 +1231,7 @@ impl Property for C20 {
         vec![Stage::random("random", tier.pick(300_000, 20_000_000), case_strategy)]
     }
     fn rule(&self) -> String {
-        "three families, everything under catch_unwind with the interpreter initialised. (A) constructors and fallible operations with arbitrary arguments: Dual/Dual2::try_new and try_new_from (any floats incl. NaN/inf, duplicate names, coefficient vectors of any length 0-8/0-17), Ccy / FXPair / FXRate (arbitrary short unicode strings incl. ones whose lower-casing changes the byte length), FXRates::try_new (arbitrary quote multisets, any base, rates incl. 0 / negative / NaN / inf, all number kinds, settlement mixes; a union-find predicts Ok/Err), NamedCal::try_new (strings over [A-Za-z,| ] and arbitrary unicode; a parser model predicts Ok/Err), PPSpline::csolve + evaluation (any site/data lengths, end orders 0..k+1, both lsq flags, all three element types; the harness's own rank test classifies the collocation matrix), get_roll, index_value. (B) add_days / add_bus_days / lag / roll / bus_date_range over the whole i8 range and add_months for offsets landing in 1970-2200 with every roll kind and day 1-31 on arbitrary calendars; add_bus_days must return an error exactly for a non-business start and a business day otherwise. (C) valid JSON documents of 14 kinds (direct and through the tagged from_json entry point) with 1-3 structural mutations (delete, duplicate key / element, replace by another JSON value, semantically wrong string, array resize, number perturbation, re-shaping a serialised array to another shape with the same element count); the mutated text is loaded; an accepted object is re-saved and every number / spline inside must satisfy its shape rule, a loaded FX market must answer all n*n rates. Oracle: no panic anywhere; Ok/Err as the explicit contracts predict. Non-trivial: an argument tuple that hits an error rule or an extreme; |n| >= 100 or a capped roll day; a mutated document that differs from the original.".into()
+        "three families, everything under catch_unwind with the interpreter initialised. (A) constructors and fallible operations with arbitrary arguments: Dual/Dual2::try_new and try_new_from (any floats incl. NaN/inf, duplicate names, coefficient vectors of any length 0-8/0-17), Ccy / FXPair / FXRate (arbitrary short unicode strings incl. ones whose lower-casing changes the byte length), FXRates::try_new (arbitrary quote multisets, any base, rates incl. 0 / negative / NaN / inf, all number kinds, settlement mixes; a union-find predicts Ok/Err), NamedCal::try_new (strings over [A-Za-z,| ] and arbitrary unicode; a parser model predicts Ok/Err), PPSpline::csolve + evaluation (any site/data lengths, end orders 0..k+1, both lsq flags, all three element types; the harness's own rank test classifies the collocation matrix), get_roll, index_value. (B) add_days / add_bus_days / lag / roll / bus_date_range over the whole i8 range and add_months for offsets landing in 1970-2200 with every roll kind and day 1-31 on arbitrary calendars; add_bus_days must return an error exactly for a non-business start and a business day otherwise. (C) valid JSON documents of 14 kinds (direct and through the tagged from_json entry point) with 1-3 structural mutations (delete, duplicate key / element, replace by another JSON value, semantically wrong string, array resize, number perturbation, re-shaping a serialised array to another shape with the same element count, making a serialised spline degenerate in three fields at once); the mutated text is loaded; an accepted object is re-saved and every number / spline inside must satisfy its shape rule, a loaded FX market must answer all n*n rates. Oracle: no panic anywhere; Ok/Err as the explicit contracts predict. Non-trivial: an argument tuple that hits an error rule or an extreme; |n| >= 100 or a capped roll day; a mutated document that differs from the original.".into()
     }
     fn floors(&self, tier: Tier) -> Vec<Floor> {
         let n = tier.pick(300_000u64, 20_000_000);
